@@ -271,6 +271,21 @@ def record_stream(cds, hp, limit=200):
   return out
 
 
+def stream_content_ok(n, stream):
+  """The concatenated batches are a concatenation of passes over the dataset: every complete window of n indices is a
+  permutation of range(n), the incomplete last window has distinct indices in range(n)."""
+  flat_idx = [i for b in stream for i in b]
+  if n == 0:
+    return not flat_idx
+  for k in range(0, len(flat_idx), n):
+    w = flat_idx[k:k + n]
+    if len(w) == n and sorted(w) != list(range(n)):
+      return False
+    if len(w) < n and (len(set(w)) != len(w) or any(not 0 <= i < n for i in w)):
+      return False
+  return True
+
+
 def expected_num_steps(n, hp):
   """Number of batches the documentation of shuffle_repeat_batch promises (independent of the code)."""
   if n == 0:
